@@ -46,7 +46,7 @@ def schedule_from_states(states):
     return cmds
 
 
-def trap_schedules(ctx, base_cfg, traps, seeds, mode="sim"):
+def trap_schedules(ctx, base_cfg, traps, seeds, mode="sim", module="MCServer", compiler=None, extra_cfg="", depth=90):
     """For every trap invariant and seed, let TLC (simulation mode) find a behaviour into the window."""
     sdir = os.path.join(ctx.work, "spec")
     if not os.path.isdir(sdir):
@@ -60,14 +60,14 @@ def trap_schedules(ctx, base_cfg, traps, seeds, mode="sim"):
     def one(job):
         t, s = job
         cfg = "trap_%s_%d.cfg" % (t, s)
-        open(os.path.join(sdir, cfg), "w").write(base + "\nINVARIANTS %s\n" % t)
+        open(os.path.join(sdir, cfg), "w").write(base + "\nINVARIANTS %s\n%s\n" % (t, extra_cfg))
         out = os.path.join(ctx.work, "trap_%s_%d.json" % (t, s))
         meta = os.path.join(ctx.work, "meta_%s_%d" % (t, s))
         if mode == "sim":
-            cmd = ["tlc", "-noGenerateSpecTE", "-simulate", "num=300000", "-depth", "90", "-seed", str(s), "-dumpTrace", "json", out,
-                   "-metadir", meta, "-workers", "2", "-config", cfg, "MCServer.tla"]
+            cmd = ["tlc", "-noGenerateSpecTE", "-simulate", "num=300000", "-depth", str(depth), "-seed", str(s), "-dumpTrace", "json", out,
+                   "-metadir", meta, "-workers", "2", "-config", cfg, module + ".tla"]
         else:   # breadth-first: the shortest behaviour into the window
-            cmd = ["tlc", "-noGenerateSpecTE", "-dumpTrace", "json", out, "-metadir", meta, "-workers", "3", "-config", cfg, "MCServer.tla"]
+            cmd = ["tlc", "-noGenerateSpecTE", "-dumpTrace", "json", out, "-metadir", meta, "-workers", "3", "-config", cfg, module + ".tla"]
         e = dict(os.environ)
         e["JAVA_TOOL_OPTIONS"] = "-Xss512m -Xmx2g"
         try:
@@ -80,7 +80,7 @@ def trap_schedules(ctx, base_cfg, traps, seeds, mode="sim"):
             return t, s, None, p.stdout[-500:]
         d = json.load(open(out))
         states = [x[1] for x in d["counterexample"]["state"]]
-        return t, s, schedule_from_states(states), ""
+        return t, s, (compiler or schedule_from_states)(states), ""
 
     scheds, missing = [], []
     with concurrent.futures.ThreadPoolExecutor(max_workers=6) as ex:
@@ -89,7 +89,7 @@ def trap_schedules(ctx, base_cfg, traps, seeds, mode="sim"):
                 missing.append((t, s, err))
             else:
                 scheds.append({"id": "trap-%s-%s%d" % (t, mode, s), "cmds": cmds})
-    ctx.tlc_cmds.append("tlc -simulate -seed <s> -dumpTrace json -config %s+INVARIANTS <Trap> MCServer.tla (x%d)" % (base_cfg, len(jobs)))
+    ctx.tlc_cmds.append("tlc %s -dumpTrace json -config %s+INVARIANTS <Trap> %s.tla (x%d)" % ("-simulate -seed <s>" if mode == "sim" else "(bfs)", base_cfg, module, len(jobs)))
     return scheds, missing
 
 
@@ -209,15 +209,16 @@ def oracle(run, want):
     return res
 
 
-def validate(ctx, log, want, cfg="Server_trace.cfg"):
+def validate(ctx, log, want, cfg="Server_trace.cfg", module="TraceServer", oracle_fn=None):
     """Strict gate-level validation of all runs by TLC. A run the model cannot explain is a VIOLATION when it also
     shows a property-level anomaly (reported by the oracle), otherwise model drift (exit 2)."""
     runs = split_runs(log)
     accepted = 0
     drift = []
     anomalies = 0
+    oracle_fn = oracle_fn or oracle
     for r in runs:
-        for sig, text in oracle(r, want):
+        for sig, text in oracle_fn(r, want):
             anomalies += 1
             ctx.violation(sig, "run %s: %s" % (r[0].get("id"), text), {"run": r[0].get("id"), "events": r[-60:]})
     remaining = runs
@@ -226,7 +227,7 @@ def validate(ctx, log, want, cfg="Server_trace.cfg"):
             break
         tpath = os.path.join(ctx.work, "validate_%d.ndjson" % attempt)
         vlib.write_ndjson(tpath, [x for r in remaining for x in r])
-        t = ctx.tlc("TraceServer", cfg, workers=1, env={"TRACE_FILE": tpath}, must_pass=False, count=False, label="trace%d" % attempt)
+        t = ctx.tlc(module, cfg, workers=1, env={"TRACE_FILE": tpath}, must_pass=False, count=False, label="trace%d" % attempt)
         if t.ok:
             accepted += len(remaining)
             break
@@ -247,7 +248,7 @@ def validate(ctx, log, want, cfg="Server_trace.cfg"):
         r = remaining[bad]
         accepted += bad
         ev = r[pos - n - 1] if 0 <= pos - n - 1 < len(r) else None
-        if oracle(r, want):
+        if oracle_fn(r, want):
             pass  # already reported as a violation above
         elif t.violated:
             ctx.violation("invariant:" + "+".join(t.violated), "run %s: TLC: invariant %s violated on the recorded trace at event %s" % (r[0].get("id"), t.violated, json.dumps(ev)),
